@@ -368,7 +368,7 @@ const LEDGER_ALL: &[&str] = &[
     "option_taken_on_failure",
 ];
 const PROGRESS: &[&str] = &["stuck_illegit", "stale_waker", "livelock", "not_released", "waiter_survived_close"];
-const MEMORY: &[&str] = &["race", "uaf"];
+const MEMORY: &[&str] = &["race", "uaf", "dead_waker_used"];
 
 fn kind_filter(prop: &str) -> Option<fn(&OpRec) -> bool> {
     match prop {
